@@ -573,6 +573,36 @@ pub fn run(opts: &Opts) {
 			nums.push(format!("{:o}", p + d));
 		}
 	}
+	// beyond the f64 range: the fused fold overflows to +inf, which is not a jsonnet number
+	let f64max = format!("{:.0}", f64::MAX);
+	for st in [
+		format!("1{}", "0".repeat(308)),
+		format!("1{}", "0".repeat(309)),
+		"9".repeat(308),
+		"9".repeat(309),
+		"9".repeat(400),
+		format!("-{}", "9".repeat(400)),
+		format!("-1{}", "0".repeat(308)),
+		"f".repeat(255),
+		"f".repeat(256),
+		"F".repeat(300),
+		format!("1{}", "0".repeat(255)),
+		format!("1{}", "0".repeat(256)),
+		"7".repeat(341),
+		"7".repeat(342),
+		format!("1{}", "0".repeat(341)),
+		format!("2{}", "0".repeat(341)),
+		f64max.clone(),
+		format!("-{f64max}"),
+		format!("{}9", &f64max[..f64max.len() - 1]),
+		format!("17976931348623158{}", "0".repeat(292)),
+		format!("17976931348623159{}", "0".repeat(292)),
+		format!("{}x", "9".repeat(400)),
+		format!("{}:", "f".repeat(300)),
+		format!("+{}", "1".repeat(30)),
+	] {
+		nums.push(st);
+	}
 	for st in &nums {
 		for name in ["parseInt", "parseOctal", "parseHex"] {
 			g.call(name, vec![jstr(st)]);
@@ -697,6 +727,75 @@ pub fn run(opts: &Opts) {
 		g.ext("parseJson", vec![jstr(bad)]);
 	}
 
+	// ---- std.parseJson accepts exactly: ws value ws (independent RFC 8259 reader in Lean) ----
+	{
+		let tails: [&str; 26] = [
+			"", " ", "\n", "\t\r\n ", " x", "x", ",", "]", "}", " 1", "1", " null", "null", "\"", " \"a\"", "//c", " /*c*/",
+			"\u{0}", "\u{a0}", "\u{feff}", "\u{c}", "\u{b}", " []", "{}", ":", "\u{2028}",
+		];
+		let heads: [&str; 8] = ["", " ", "\n\t", "\u{feff}", "\u{c}", "x", ",", "\u{a0}"];
+		let mut texts: Vec<String> = Vec::new();
+		for i in 0..700 * scale {
+			let doc = json_doc(&mut rng, 2, false);
+			if doc.len() > 120 {
+				continue;
+			}
+			texts.push(doc.clone());
+			let t = *rng.pick(&tails);
+			let h = if rng.chance(1, 4) { *rng.pick(&heads) } else { "" };
+			texts.push(format!("{h}{doc}{t}"));
+			if i % 3 == 0 {
+				// damage: delete / duplicate / replace one character
+				let cs: Vec<char> = doc.chars().collect();
+				if !cs.is_empty() {
+					let k = rng.below(cs.len());
+					let repl: [char; 10] = [',', ':', '"', ']', '}', '[', '{', ' ', '0', '\\'];
+					let t: String = match rng.below(3) {
+						0 => cs[..k].iter().chain(cs[k + 1..].iter()).collect(),
+						1 => cs[..=k].iter().chain(cs[k..].iter()).collect(),
+						_ => cs[..k].iter().chain([*rng.pick(&repl)].iter()).chain(cs[k + 1..].iter()).collect(),
+					};
+					texts.push(t);
+				}
+			}
+		}
+		for v in ["1", "[1]", "{\"a\":1}", "\"s\"", "null", "true", "-0", "1.5e3", "[]", "{}"] {
+			for t in tails {
+				texts.push(format!("{v}{t}"));
+			}
+			for h in heads {
+				texts.push(format!("{h}{v}"));
+			}
+		}
+		for bad in ["", "{", "[1,]", "{\"a\":1,}", "nul", "01", "1 2", "\"\\x\"", "[1] x", "'a'", "[", "tru", "{\"a\" 1}", "{1:2}", "\"a", "[1 2]", "-", "1.", ".5", "+1", "0x10", "\t1\n", " [ ] ", "\u{feff}1", "1e", "1e+", "-01", "1.e1", "\"\\ud800\"", "\"\\ud800\\u0041\"", "\"\\udc00\"", "\"\\ud83d\\ude00\"", "\"\u{1}\"", "\"\t\"", "[[[[[[[[[[1]]]]]]]]]]", "1e400", "-1e400", "1e-400", "NaN", "Infinity", "[1,,2]", "{\"a\":1 \"b\":2}", "{\"a\":1,\"a\":2}", "nullx", "truefalse", "1true", "\"a\"\"b\""] {
+			texts.push(bad.to_string());
+		}
+		let mut n_json = 0usize;
+		let mut n_acc = 0usize;
+		let mut seen_t = std::collections::HashSet::new();
+		for t in &texts {
+			if !seen_t.insert(t.clone()) {
+				continue;
+			}
+			let ans = call(&g.funs["parseJson"], &[jstr(t)]);
+			let out = if ans.get("panic").is_some() {
+				g.panics += 1;
+				ans
+			} else {
+				let acc = ans.get("ok").is_some();
+				if acc {
+					n_acc += 1;
+				}
+				json!({ "accept": acc })
+			};
+			let bytes: Vec<Value> = t.bytes().map(|b| json!(b)).collect();
+			g.w.case(json!({"op": "str.json", "fn": "parseJson", "b": bytes, "_text": t.escape_default().to_string(), "size": t.len()}), out);
+			n_json += 1;
+		}
+		g.hist.insert("parseJson(accept/reject vs Lean reader)".into(), n_json);
+		g.hist.insert("parseJson(accepted)".into(), n_acc);
+	}
+
 	// ---- std.trace's debug format: long strings inside a value are shortened on bytes ----
 	let mut longs: Vec<String> = Vec::new();
 	for k in 0..4 {
@@ -735,7 +834,7 @@ pub fn run(opts: &Opts) {
 		json!({
 			"engine": "c11", "cases": n, "per_function": hist, "string_arg_length_histogram": lens,
 			"string_args_with_non_ascii": nonascii, "error_answers": errs, "panics": panics,
-			"rule": "every listed std string/codec/parser builtin called in-process with Val arguments: all strings of length 0..3 (thorough 0..4) over {a,B,space,é,ß,→,😀,U+0301,','} plus sampled lengths up to 12 and a pool of function-specific special characters; pattern/separator pairs incl. overlapping and partial-byte-overlap patterns; offsets/counts 0..len+2, negative and 2^53-1; byte arrays over all UTF-8 lead/continuation classes of length 0..2 exhaustive and 3..6 sampled plus damaged valid text; base64 texts exhaustive to length 3 over a 15-symbol set plus damaged correct encodings and all final sextets; numeric strings around 2^53..2^56 in bases 8/10/16 and all 2-character strings over digit-boundary characters"
+			"rule": "every listed std string/codec/parser builtin called in-process with Val arguments: all strings of length 0..3 (thorough 0..4) over {a,B,space,é,ß,→,😀,U+0301,','} plus sampled lengths up to 12 and a pool of function-specific special characters; pattern/separator pairs incl. overlapping and partial-byte-overlap patterns; offsets/counts 0..len+2, negative and 2^53-1; byte arrays over all UTF-8 lead/continuation classes of length 0..2 exhaustive and 3..6 sampled plus damaged valid text; base64 texts exhaustive to length 3 over a 15-symbol set plus damaged correct encodings and all final sextets; numeric strings around 2^53..2^56 in bases 8/10/16 and all 2-character strings over digit-boundary characters, digit strings of 255..400 digits around the f64 range; std.parseJson accept/reject on generated documents with whitespace/junk heads and tails and single-character damage"
 		}),
 		&opts.out,
 	);
